@@ -5,12 +5,13 @@ equilibrium constructors.  Here: (A) those laws on the real kernel (moment corre
 import numpy as np, math
 from . import common, gen
 from .common import close
-from .c01_oracle import coalescent_sfs, selection_equilibrium_sfs
+import importlib
+from .c01_oracle import coalescent_sfs, coalescent_sfs_timedep, selection_equilibrium_sfs
 
 PROP = 'C01'
-GENERATED = ['Coeffs', 'Phi1D', 'Phi1DReal']
+GENERATED = ['Coeffs', 'Phi1D', 'Phi1DReal', 'Demog1D']
 NEEDS_BUILD = True
-DRIVER_MODULES = ['Integ']
+DRIVER_MODULES = ['Integ', 'Demog1D']
 
 class TF:
     """temporarily set Integration.timescale_factor"""
@@ -91,6 +92,39 @@ def random_history(rng):
     k = int(rng.integers(1, 5))
     return [(gen.loguniform(rng, 0.05, 20), gen.loguniform(rng, 0.005, 3)) for _ in range(k)]
 
+def far_size(rng):
+    """a size of the box at least a factor 3 away from the reference size"""
+    return gen.loguniform(rng, 0.05, 1 / 3.0) if rng.random() < 0.5 else gen.loguniform(rng, 3.0, 20)
+
+def mid_time(rng, nu):
+    """an epoch length of 0.2-1 coalescent units at size nu (kept inside the box): long enough for the epoch to matter, short enough
+    for the population to be out of equilibrium at its end"""
+    return float(min(3.0, max(0.005, nu * rng.uniform(0.2, 1.0))))
+
+def special_history(rng, kind):
+    """a random history of the property's box carrying one of the special values its quantifier contains ("all size histories"):
+    an epoch at exactly the reference size 1 after a size change ('one'), two consecutive epochs of exactly the same size ('same')
+    - both after an epoch that leaves the population out of equilibrium, and long enough to matter -, a first epoch at exactly 1
+    ('first-one': the equilibrium continues), a zero-length epoch ('zero'), epoch lengths at the ends of the box ('ends').
+    Such epochs are no-ops only where theory says so."""
+    k = int(rng.integers(2, 5))
+    ep = [[gen.loguniform(rng, 0.05, 20), gen.loguniform(rng, 0.005, 3)] for _ in range(k)]
+    j = int(rng.integers(1, k))
+    if kind in ('one', 'same'):
+        v = far_size(rng)
+        ep[j - 1] = [v, mid_time(rng, v)]
+        w = 1.0 if kind == 'one' else v
+        ep[j] = [w, mid_time(rng, w)]
+    elif kind == 'first-one':
+        ep[0][0] = 1.0
+    elif kind == 'zero':
+        ep[int(rng.integers(0, k))][1] = 0.0
+    elif kind == 'ends':
+        ep[j][1] = 0.005; ep[j - 1][1] = 3.0
+    return [tuple(e) for e in ep]
+
+SPECIAL_KINDS = ['one', 'same', 'first-one', 'zero', 'ends']
+
 def grid_list(n, L):
     """a grid list 'at or above the sample size' of length L, fine enough for the refinement clause (calibrated on the unchanged
     tree: worst error 0.7 % over lengths 1…6)"""
@@ -102,39 +136,170 @@ def grid_list(n, L):
 def nsteps(epochs, tf):
     return sum(T / (tf / (0.25 / nu)) for nu, T in epochs)
 
-def coalescent_case(chk, dadi, n, ep, pts, log, as_func):
+# ---- the library's own one-population models (the public way to get a one-population spectrum)
+def _expo(a, b, T):
+    return lambda t: a * math.exp(math.log(b / a) * t / T)
+
+# name -> (module, number of sizes, number of times, parameter vector, size history stated by the model's documentation:
+# epochs (nu, T) forward in time after the ancestral size 1, nu a number or a function of the time since the epoch began).
+# Written from the docstrings; the *_sel models are run at gamma = 0, three_epoch_inbreeding at F = 0.
+LIBRARY = {
+    'snm_1d':                 ('Demographics1D', 0, 0, lambda S, X: None,                              lambda S, X: []),
+    'two_epoch':              ('Demographics1D', 1, 1, lambda S, X: (S[0], X[0]),                      lambda S, X: [(S[0], X[0])]),
+    'growth':                 ('Demographics1D', 1, 1, lambda S, X: (S[0], X[0]),                      lambda S, X: [(_expo(1.0, S[0], X[0]), X[0])]),
+    'bottlegrowth_1d':        ('Demographics1D', 2, 1, lambda S, X: (S[0], S[1], X[0]),                lambda S, X: [(_expo(S[0], S[1], X[0]), X[0])]),
+    'three_epoch':            ('Demographics1D', 2, 2, lambda S, X: (S[0], S[1], X[0], X[1]),          lambda S, X: [(S[0], X[0]), (S[1], X[1])]),
+    'three_epoch_inbreeding': ('Demographics1D', 2, 2, lambda S, X: (S[0], S[1], X[0], X[1], 0.0),     lambda S, X: [(S[0], X[0]), (S[1], X[1])]),
+    'equil':                  ('DFE.DemogSelModels', 0, 0, lambda S, X: (0.0,),                        lambda S, X: []),
+    'two_epoch_sel':          ('DFE.DemogSelModels', 1, 1, lambda S, X: (S[0], X[0], 0.0),             lambda S, X: [(S[0], X[0])]),
+    'three_epoch_sel':        ('DFE.DemogSelModels', 2, 2, lambda S, X: (S[0], S[1], X[0], X[1], 0.0), lambda S, X: [(S[0], X[0]), (S[1], X[1])]),
+    'growth_sel':             ('DFE.DemogSelModels', 1, 1, lambda S, X: (S[0], X[0], 0.0),             lambda S, X: [(_expo(1.0, S[0], X[0]), X[0])]),
+    'bottlegrowth_1d_sel':    ('DFE.DemogSelModels', 2, 1, lambda S, X: (S[0], S[1], X[0], 0.0),       lambda S, X: [(_expo(S[0], S[1], X[0]), X[0])]),
+}
+# special values per family (sizes | times): 'one' = exactly the reference size 1.0, 'same' = exactly the previous size (1.0 for the
+# first), 'far' = at least a factor 3 from 1, 'lo'/'hi' = ends of the property's box, 'zero' = zero-length epoch, 'mid' = 0.2-1
+# coalescent units at the epoch's (final) size, 'rnd' = drawn from the box
+PATTERNS = {
+    (0, 0): [((), ())],
+    (1, 1): [(('one',), ('mid',)), (('rnd',), ('zero',)), (('rnd',), ('lo',)), (('rnd',), ('hi',)), (('lo',), ('rnd',)), (('hi',), ('rnd',)),
+             (('far',), ('mid',)), (('rnd',), ('rnd',))],
+    (2, 1): [(('one', 'far'), ('mid',)), (('far', 'one'), ('mid',)), (('far', 'same'), ('mid',)), (('one', 'one'), ('rnd',)),
+             (('rnd', 'rnd'), ('zero',)), (('rnd', 'rnd'), ('lo',)), (('rnd', 'rnd'), ('hi',)), (('lo', 'rnd'), ('rnd',)),
+             (('rnd', 'hi'), ('rnd',)), (('rnd', 'rnd'), ('rnd',))],
+    (2, 2): [(('far', 'one'), ('mid', 'mid')), (('one', 'far'), ('rnd', 'mid')), (('far', 'same'), ('mid', 'mid')), (('one', 'one'), ('rnd', 'rnd')),
+             (('rnd', 'rnd'), ('zero', 'rnd')), (('rnd', 'rnd'), ('rnd', 'zero')), (('far', 'one'), ('lo', 'hi')), (('rnd', 'rnd'), ('hi', 'lo')),
+             (('lo', 'rnd'), ('rnd', 'rnd')), (('hi', 'lo'), ('rnd', 'rnd')), (('rnd', 'hi'), ('rnd', 'rnd')), (('rnd', 'rnd'), ('rnd', 'rnd'))],
+}
+
+def lib_function(dadi, name):
+    return getattr(importlib.import_module(dadi.__name__ + '.' + LIBRARY[name][0]), name)
+
+def lib_sfs(dadi, name, S, X, n, pts_l, tf, log=False):
+    f = lib_function(dadi, name)
+    F = dadi.Numerics.make_extrap_log_func(f) if log else dadi.Numerics.make_extrap_func(f)
+    with TF(dadi.Integration, tf):
+        return np.asarray(F(LIBRARY[name][3](S, X), (n,), pts_l))[1:-1]
+
+def step_profile(segments, tf):
+    """(number of time steps, largest |log size ratio| across one step of a time-dependent epoch) under the documented step rule
+    dt = timescale_factor/(0.25/nu) evaluated at the start of each step"""
+    k = 0; mx = 0.0
+    for nu, T in segments:
+        if T <= 0: continue
+        if not callable(nu):
+            k += int(math.ceil(T / (4 * nu * tf))); continue
+        t = 0.0
+        while t < T:
+            v = nu(t); t2 = min(t + 4 * v * tf, T)
+            mx = max(mx, abs(math.log(nu(t2) / v))); t = t2; k += 1
+            if k > 5e6: break
+    return k, mx
+
+def draw_library_case(rng, name, pattern, cap):
+    ns_, nt_ = LIBRARY[name][1], LIBRARY[name][2]
+    for _ in range(400):
+        S = []; X = []
+        for tok in pattern[0]:
+            prev = S[-1] if S else 1.0
+            S.append(far_size(rng) if tok == 'far' else {'one': 1.0, 'same': prev, 'lo': 0.05, 'hi': 20.0}.get(tok) or gen.loguniform(rng, 0.05, 20))
+        for i, tok in enumerate(pattern[1]):
+            ref = S[i] if len(pattern[1]) == len(S) else S[-1]
+            X.append(mid_time(rng, ref) if tok == 'mid' else {'zero': 0.0, 'lo': 0.005, 'hi': 3.0}[tok] if tok != 'rnd' else gen.loguniform(rng, 0.005, 3))
+        if step_profile(LIBRARY[name][4](S, X), 1e-4)[0] <= cap:
+            return S, X
+    return None
+
+def coalescent_case(chk, dadi, n, ep, pts, log, as_func, lib=None):
+    """one history against the exact coalescent expectation at a tenth of the default step.  lib = None: the history `ep` is built from
+    direct one_pop calls (sfs_model); lib = dict(model, sizes, times): the library's model function is run."""
     L = len(pts)
-    th = coalescent_sfs(n, ep)
-    inp = dict(n=n, epochs=ep, pts=pts, log=log, as_func=as_func)
-    key = 'coalescent:%s:%s:grids=%d' % ('log' if log else 'lin', 'func' if as_func else 'const', L)
-    chk.l3((key, len(ep), n))
+    tf = 1e-4
+    if lib is None:
+        th = coalescent_sfs(n, ep)
+        inp = dict(n=n, epochs=ep, pts=pts, log=log, as_func=as_func)
+        key = 'coalescent:%s:%s:grids=%d' % ('log' if log else 'lin', 'func' if as_func else 'const', L)
+        run_it = lambda f, p=pts: sfs_model(dadi, n, ep, p, f, log=log, as_func=as_func)
+        known_key = key
+        where = 'one_pop history'
+    else:
+        name, S, X = lib['model'], list(lib['sizes']), list(lib['times'])
+        segs = LIBRARY[name][4](S, X)
+        th, M, ch = coalescent_sfs_timedep(n, segs)
+        ep = [] if any(callable(nu) for nu, T in segs) else list(segs)
+        inp = dict(n=n, model=name, sizes=S, times=X, params=LIBRARY[name][3](S, X), pts=pts, log=log, as_func=False, oracle_pieces=M)
+        key = 'library:%s:%s:grids=%d' % (name, 'log' if log else 'lin', L)
+        known_key = 'coalescent:%s:const:grids=%d' % ('log' if log else 'lin', L)
+        # A continuously varying size is outside the letter of the 1.5 % clause (piecewise-constant histories).  The step rule sizes a
+        # step by the size at its START; the clause is applied at a tenth of the default step when no step changes the size by more
+        # than a factor e^0.5, and otherwise at the first further tenth of the step that resolves nu(t) that well ("converges as the
+        # time step is refined"; calibrated on the unchanged tree: resolved histories are within 1 %, a 3-fold shrink inside ONE
+        # step is 2-30 % off at 1e-4 and 0.4 % at 1e-6).
+        while step_profile(segs, tf)[1] > 0.5 and tf > 1e-7:
+            tf /= 10
+        if tf < 1e-4:
+            inp['timescale_factor'] = tf; chk.stats['library_growth_cases_refined'] = chk.stats.get('library_growth_cases_refined', 0) + 1
+        run_it = lambda f, p=pts: lib_sfs(dadi, name, S, X, n, p, f, log=log)
+        where = 'dadi.%s.%s%r' % (LIBRARY[name][0], name, LIBRARY[name][3](S, X))
+    chk.l3((key, len(ep), n) if lib is None else (key, lib.get('pattern')))
     try:
-        fine = sfs_model(dadi, n, ep, pts, 1e-4, log=log, as_func=as_func)
+        fine = run_it(tf)
     except Exception as e:
-        chk.fail(key + ':raises:' + type(e).__name__, 'model raises %r' % (e,), inp); return 0.0
-    if not np.all(np.isfinite(fine)) or np.any(fine < 0):
-        chk.fail(key + ':nonfinite', 'spectrum has non-finite or negative entries', inp); return 0.0
+        chk.fail(key + ':raises:' + type(e).__name__, '%s raises %r' % (where, e), inp); return 0.0
+    if fine.shape != th.shape or not np.all(np.isfinite(fine)) or np.any(fine < 0):
+        chk.fail(key + ':nonfinite', 'spectrum of %s has non-finite or negative entries (or the wrong shape)' % where, inp); return 0.0
     err = float(np.max(np.abs(fine - th) / th))
     if err > 0.015:
         i = int(np.argmax(np.abs(fine - th) / th)) + 1
-        suffix = ':1.5pct'
+        suffix = ':1.5pct'; k_ = key
         # Known shortfall of the unchanged tree (F-01a, known_findings.json): right after an expansion by a factor >= 50 the step rule
         # dt ~ nu takes the whole new epoch in a few dozen steps, and the transient inherited from the bottleneck is under-resolved:
         # 1.6-2.4 % at a tenth of the default step (pure time-step error: it does not move with the grid and falls with dt).
         # Such a case gets its own key so that any other way of exceeding 1.5 % is still reported as a violation.
+        # The spectrum is sampled while that transient is still there: the new epoch is covered by <= 64 steps, or (round 6: n = 30,
+        # nu 0.075 -> 20 sampled 1.2 time units = 0.06 coalescent units = 151 steps later: 1.64 % on fully refined grids, 0.11 % at a
+        # hundredth of the default step) no more than 0.1 coalescent units have passed since the expansion.
         steps = [T / (1e-4 * 4 * nu) for nu, T in ep]
-        trans = [k for k in range(1, len(ep)) if ep[k][0] / ep[k - 1][0] >= 50 and steps[k] <= 64]
-        if trans and err <= 0.03:
+        since = [sum(T / nu for nu, T in ep[k:]) for k in range(len(ep))]
+        trans = [k for k in range(1, len(ep)) if ep[k][0] / ep[k - 1][0] >= 50 and (0 < steps[k] <= 64 or 0 < since[k] <= 0.1)]
+        def transient(e, p):
+            """F-01a pattern at grid list p: below 3 %, and time-step dominated (a further tenth of the step brings it under 1.5 % and
+            divides it by 3 at least)"""
+            if not (trans and e <= 0.03): return None
             try:
-                finer = sfs_model(dadi, n, ep, pts, 1e-5, log=log, as_func=as_func)
-                err2 = float(np.max(np.abs(finer - th) / th))
+                finer = run_it(1e-5, p)
+                e2 = float(np.max(np.abs(finer - th) / th))
             except Exception:
-                err2 = err
-            inp = dict(inp, err_at_tenth=err, err_at_hundredth=err2, steps_per_epoch=steps)
-            if err2 <= err / 3 and err2 <= 0.015:
-                suffix = ':1.5pct:transient-after-expansion:below-3pct'
-        chk.fail(key + suffix, 'entry %d is %.4g, exact coalescent expectation %.4g (%.2f%% off) at a tenth of the default step, pts=%s' % (i, fine[i-1], th[i-1], 100 * err, pts), inp)
-    chk.sample(dict(clause='coalescent', n=n, epochs=ep, pts=pts, log=log, as_func=as_func, max_rel_err=err))
+                e2 = e
+            return dict(err_at_tenth=e, err_at_hundredth=e2, steps_per_epoch=steps, pts_of_step_test=p) if (e2 <= e / 3 and e2 <= 0.015) else None
+        tr = transient(err, pts)
+        errs = [err]; lists = [list(pts)]
+        if tr is None and chk.stats.get('coalescent_refinements_unresolved', 0) < 6:
+            # "converges as grid and time step are refined": an error above the bound with the drawn grid list counts only if it stays
+            # above it when every grid size is doubled and then quadrupled (a deep bottleneck followed by a large expansion needs finer
+            # grids than grid_list draws: e.g. n = 17, nu 0.22 -> 0.062 -> 9.47: 1.66 % at pts 40,50,60, 0.27 % at 80,100,120).  A wrong
+            # result does not go away under grid refinement.
+            for mult in (2, 4):
+                p2 = [int(q * mult) for q in pts]
+                try:
+                    f2 = run_it(tf, p2)
+                    e2 = float(np.max(np.abs(f2 - th) / th)) if np.all(np.isfinite(f2)) else float('inf')
+                except Exception:
+                    e2 = float('inf')
+                errs.append(e2); lists.append(p2)
+                if e2 <= 0.015: break
+            if errs[-1] <= 0.015:
+                rec = dict(n=n, pts=lists, errors=[round(e, 5) for e in errs], **({'epochs': ep} if lib is None else dict(model=lib['model'], sizes=S, times=X)))
+                chk.stats.setdefault('coalescent_grid_limited', []).append(rec)
+                chk.sample(dict(clause='coalescent', grid_limited=True, log=log, as_func=as_func, **rec), cap=12)
+                return errs[-1]
+            chk.stats['coalescent_refinements_unresolved'] = chk.stats.get('coalescent_refinements_unresolved', 0) + 1
+            tr = transient(errs[1], lists[1])       # the pattern may only show once the grid error is out of the way
+        if tr is not None:
+            inp = dict(inp, **tr); suffix = ':1.5pct:transient-after-expansion:below-3pct'; k_ = known_key
+        ref = '' if len(errs) == 1 else '; with every grid size x2 / x4: %s' % ', '.join('%.2f%%' % (100 * e) for e in errs[1:])
+        inp = dict(inp, errors_under_grid_refinement=errs, grid_lists=lists)
+        chk.fail(k_ + suffix, '%s: entry %d is %.4g, exact coalescent expectation %.4g (%.2f%% off) at timescale_factor=%g (default 1e-3), pts=%s%s' % (where, i, fine[i-1], th[i-1], 100 * err, tf, pts, ref), inp)
+    chk.sample(dict(clause='coalescent', n=n, epochs=ep, pts=pts, log=log, as_func=as_func, max_rel_err=err, **({} if lib is None else dict(model=lib['model'], sizes=S, times=X))))
     return err
 
 # recorded inputs of listed findings (known_findings.json): re-evaluated on every run, so the KNOWN-FINDING line is printed while the
@@ -145,13 +310,14 @@ CORPUS = [dict(n=20, epochs=[(1.9712753538489214, 0.009960484102365889), (0.0712
 def coalescent_convergence(chk, ctx, rng, n_cases, tier):
     dadi = ctx['dadi']
     worst = 0.0
+    cap = 4e5 if tier == 'thorough' else 1.2e5
     for c in CORPUS:
         coalescent_case(chk, dadi, c['n'], c['epochs'], c['pts'], c['log'], c['as_func'])
     for it in range(n_cases):
         n = int(rng.integers(2, 31)) if tier == 'thorough' or it % 3 else int(rng.integers(2, 13))
         ep = random_history(rng)
         # keep the run time bounded: total steps at tf/10
-        while nsteps(ep, 1e-4) > (4e5 if tier == 'thorough' else 1.2e5):
+        while nsteps(ep, 1e-4) > cap:
             ep = random_history(rng)
         # grid lists of every length the extrapolation wrappers accept (1 = no extrapolation, on a fine grid; 2…6 grids)
         L = [3, 1, 2, 4, 3, 6, 5, 1][(it + it // 8) % 8]
@@ -159,6 +325,69 @@ def coalescent_convergence(chk, ctx, rng, n_cases, tier):
         log = bool(it % 2); as_func = bool((it // 2) % 2)
         worst = max(worst, coalescent_case(chk, dadi, n, ep, pts, log, as_func))
     chk.stats['coalescent_worst_rel_err'] = worst
+
+def special_histories(chk, ctx, rng, tier):
+    dadi = ctx['dadi']; worst = 0.0
+    cap = 4e5 if tier == 'thorough' else 1.2e5
+    # histories carrying the special values of the box, each kind with constant and with time-function parameter passing
+    reps = 1 if tier == 'quick' else 6
+    it = 0
+    for rep in range(reps):
+        for kind in SPECIAL_KINDS:
+            for as_func in (False, True):
+                n = int(rng.integers(4, 31)) if tier == 'thorough' else int(rng.integers(4, 17))
+                ep = special_history(rng, kind)
+                while nsteps(ep, 1e-4) > cap / 2:
+                    ep = special_history(rng, kind)
+                pts = grid_list(n, [3, 2, 4, 1, 5, 6][it % 6]); it += 1
+                chk.stat('special_history:' + kind)
+                worst = max(worst, coalescent_case(chk, dadi, n, ep, pts, bool((it // 2) % 2), as_func))
+    chk.stats['special_history_worst_rel_err'] = worst
+
+def library_models(chk, ctx, rng, tier):
+    """every one-population model function of the library against the exact coalescent expectation of the history its documentation
+    states, over the special values of the box and random draws"""
+    dadi = ctx['dadi']
+    worst = 0.0; it = 0
+    reps = 1 if tier == 'quick' else 5
+    cap = 5e4 if tier == 'quick' else 2e5
+    known = set(LIBRARY)
+    # one-population models the table above does not know (a new model is not a violation; it is listed in the evidence)
+    try:
+        D = importlib.import_module(dadi.__name__ + '.Demographics1D')
+        covered = [lib_function(dadi, k) for k in LIBRARY]
+        chk.stats['library_models_not_covered'] = sorted(k for k, v in vars(D).items() if callable(v) and hasattr(v, '__param_names__') and not any(v is c for c in covered))
+    except Exception as e:
+        chk.fail('library:import:' + type(e).__name__, 'dadi.Demographics1D cannot be imported: %r' % (e,), {})
+        return
+    for rep in range(reps):
+        for name in LIBRARY:
+            fam = (LIBRARY[name][1], LIBRARY[name][2])
+            for pattern in PATTERNS[fam]:
+                c = draw_library_case(rng, name, pattern, cap)
+                if c is None: continue
+                S, X = c
+                n = int(rng.integers(2, 31)) if tier == 'thorough' or it % 3 else int(rng.integers(2, 13))
+                L = [3, 2, 3, 4, 1, 3, 5, 6][it % 8]; log = bool((it // 3) % 2); it += 1
+                pat = '/'.join(pattern[0]) + '|' + '/'.join(pattern[1])
+                chk.stat('library:' + name)
+                worst = max(worst, coalescent_case(chk, dadi, n, None, grid_list(n, L), log, False, lib=dict(model=name, sizes=S, times=X, pattern=pat)))
+    chk.stats['library_worst_rel_err'] = worst
+    # the library's equilibrium-with-selection model against the closed form (genic selection, nu = 1)
+    for rep in range(2 if tier == 'quick' else 8):
+        g = float(rng.choice([-1, 1])) * gen.loguniform(rng, 0.1, 20); n = int(rng.integers(4, 13))
+        inp = dict(model='equil', gamma=g, n=n, pts=[160, 170, 180])
+        chk.l3(('library:equil', g > 0))
+        try:
+            F = dadi.Numerics.make_extrap_func(lib_function(dadi, 'equil'))
+            a = np.asarray(F((g,), (n,), inp['pts']))[1:-1]
+        except Exception as e:
+            chk.fail('library:equil:raises:' + type(e).__name__, 'DFE.DemogSelModels.equil((%.4g,)) raises %r' % (g, e), inp); continue
+        th = selection_equilibrium_sfs(n, 1.0, g, 0.5)
+        big = th >= 1e-6 * th.max()
+        err = float(np.max(np.abs(a - th)[big] / th[big])) if np.all(np.isfinite(a)) else float('inf')
+        if not err <= 0.015:
+            chk.fail('library:equil:1.5pct', 'DFE.DemogSelModels.equil((%.4g,)) is %.2f%% from the closed-form drift-selection equilibrium' % (g, 100 * err), inp)
 
 def dt_order(chk, ctx, rng, n_cases):
     """error proportional to dt: ||fs(dt)-fs(dt/10)|| / ||fs(dt/10)-fs(dt/100)|| in [4,25] on a fixed grid (>= 20 steps)"""
@@ -182,6 +411,103 @@ def dt_order(chk, ctx, rng, n_cases):
         if not (4.0 <= r <= 25.0):
             chk.fail('dt-order', 'refining the time step 10x twice changes the spectrum by %.3g then %.3g: ratio %.2f, expected ~10 (error proportional to dt)' % (d1, d2, r), inp)
     chk.stats['dt_order_ratios'] = [round(r, 2) for r in ratios]
+
+# ---------------------------------------------------------------- K: the library's models against the Lean model of their histories
+class Recorded:
+    """run a library model once with Integration.one_pop and Spectrum.from_phi wrapped: the (T, nu, gamma) of every one_pop call and
+    the density handed to the sampler"""
+    def __init__(self, dadi):
+        self.dadi = dadi; self.I = dadi.Integration
+        self.SP = importlib.import_module(dadi.__name__ + '.Spectrum_mod').Spectrum
+        self.calls = []; self.phi = None; self.xx = None
+    def __enter__(self):
+        import inspect
+        self.o1 = self.I.one_pop; self.o2 = self.SP.__dict__['from_phi']
+        sig = inspect.signature(self.o1)
+        def op(*a, **k):
+            b = sig.bind(*a, **k); b.apply_defaults()
+            self.calls.append((b.arguments['T'], b.arguments['nu'], b.arguments['gamma']))
+            return self.o1(*a, **k)
+        raw = self.o2.__func__ if isinstance(self.o2, staticmethod) else self.o2
+        def fp(phi, ns, xxs, *a, **k):
+            self.phi = np.array(phi, dtype=float); self.xx = np.array(xxs[0], dtype=float)
+            return raw(phi, ns, xxs, *a, **k)
+        self.I.one_pop = op; self.SP.from_phi = staticmethod(fp)
+        return self
+    def __exit__(self, *a):
+        self.I.one_pop = self.o1; setattr(self.SP, 'from_phi', self.o2)
+
+def library_correspondence(chk, ctx, rng, tier):
+    """K: (1) the one_pop calls each library model makes = the calls of the generated epoch program (Generated/Demog1D.lean) for the
+    same parameter vector; (2) for the neutral piecewise-constant models, the heterozygosity of the density handed to the sampler =
+    the Lean model's closed form over the documented history (`c01.het`, proved equal to the step-by-step recursion)."""
+    dadi = ctx['dadi']; drv = ctx.get('driver')
+    if drv is None or not drv.ok(): return
+    r = drv.ask('c01.models')
+    table = {}
+    if r.startswith('ok '):
+        for t in r[3:].split(';'):
+            nm, npar, nep = t.split(':'); table[nm] = (int(npar), int(nep))
+    # the table is exactly the set of one-population model functions the library has
+    have = {}
+    for modname in ('Demographics1D', 'DFE.DemogSelModels'):
+        M = importlib.import_module(dadi.__name__ + '.' + modname)
+        for k, v in vars(M).items():
+            if callable(v) and hasattr(v, '__param_names__') and getattr(v, '__name__', None) == k and getattr(v, '__module__', '').endswith(modname):
+                have[k] = (modname, len(v.__param_names__))
+    for nm in LIBRARY:
+        if nm not in table:
+            chk.k_bad('c01.models', dict(model=nm), 'present in the library', 'absent from the generated table', 'missing'); continue
+        if nm in have and have[nm][1] != table[nm][0]:
+            chk.k_bad('c01.models', dict(model=nm), have[nm][1], table[nm][0], 'number of parameters')
+        else:
+            chk.k_ok('c01.models')
+    for nm in table:
+        if nm not in have:
+            chk.k_bad('c01.models', dict(model=nm), 'absent from the library', 'in the generated table', 'extra')
+    reps = 1 if tier == 'quick' else 4
+    for rep in range(reps):
+        for name in LIBRARY:
+            if name not in table: continue
+            fam = (LIBRARY[name][1], LIBRARY[name][2])
+            for pattern in PATTERNS[fam]:
+                c = draw_library_case(rng, name, pattern, 2e4)
+                if c is None: continue
+                S, X = c
+                params = LIBRARY[name][3](S, X)
+                pts = int(rng.integers(16, 36)); tf = [1e-3, 5e-4, 2e-3][int(rng.integers(0, 3))]
+                inp = dict(model=name, params=params, pts=pts, timescale_factor=tf)
+                try:
+                    with TF(dadi.Integration, tf), Recorded(dadi) as R:
+                        lib_function(dadi, name)(params, (4,), pts)
+                except Exception as e:
+                    chk.k_bad('c01.calls', inp, 'raises %r' % (e,), None, 'raises'); continue
+                plist = [] if params is None else list(params)
+                ans = drv.ask('c01.calls %s %s' % (name, common.fmt_list(plist)))
+                impl = [(float(T), ('func' if callable(nu) else float(nu)), float(g)) for T, nu, g in R.calls]
+                model = None
+                if ans.startswith('ok '):
+                    model = []
+                    for t in ([] if ans[3:] == '-' else ans[3:].split(';')):
+                        T, nu, g = t.split('|')
+                        model.append((float(common.parse_list(T)[0]), 'func' if nu.startswith('func:') else float(common.parse_list(nu)[0]), float(common.parse_list(g)[0])))
+                if model is None or len(model) != len(impl) or any(a != b for a, b in zip(impl, model)):
+                    chk.k_bad('c01.calls', inp, impl, model if model is not None else ans, 'the one_pop calls made differ from the epochs of the model (T, nu, gamma)')
+                else:
+                    chk.k_ok('c01.calls')
+                if any(callable(nu) for nu, T in LIBRARY[name][4](S, X)) or R.phi is None:
+                    continue
+                xx = R.xx; w = trap_w(xx); g = xx * (1 - xx)
+                H = float(np.sum(w * g * R.phi))
+                phi0 = dadi.PhiManip.phi_1D(xx)
+                H0 = float(np.sum(w * g * phi0))
+                ans = drv.ask('c01.het %s %s %s %s %s %s' % (name, common.rat(tf), common.rat(float(xx[1])), common.rat(1.0), common.rat(H0), common.fmt_list(plist)))
+                if not ans.startswith('ok '):
+                    chk.k_bad('c01.het', inp, H, ans, 'model refuses'); continue
+                Hm = float(common.parse_list(ans[3:])[0])
+                ok, err, scale = close([H], [Hm], rtol=1e-7)
+                if ok: chk.k_ok('c01.het')
+                else: chk.k_bad('c01.het', dict(inp, H0=H0, x1=float(xx[1])), H, Hm, err)
 
 # ---------------------------------------------------------------- D: selection equilibrium vs closed form
 def eq_fs(dadi, n, nu, g, h, pts_l, T=0.0, from_neutral=False, tf=None):
@@ -324,27 +650,39 @@ def run(chk, ctx):
     chk.rule = ('A: random grids/densities/parameters for the discrete moment laws on implicit_1Dx; B: random 1-4 epoch histories over the stated box vs the exact '
                 'coalescent expectation at a tenth of the default step on refined grids (lin/log extrapolation, constant/function parameters); C: time-step order; '
                 'D: random (nu, gamma, h) vs closed-form equilibrium under grid refinement and from a neutral start; E: deterministic sweep of the equilibrium density over '
-                'the whole gamma box incl. regime switches; F: stationarity order. non-trivial = distinct (clause, regime) keys')
+                'the whole gamma box incl. regime switches; F: stationarity order; B2: histories with the special values of the box (an epoch at exactly the reference size / exactly the '
+                'previous size after a non-equilibrium epoch, first epoch at 1, zero-length epoch, lengths at the ends of the box), constant and time-function passing; '
+                'L: every one-population model function of the library (Demographics1D, DFE.DemogSelModels at gamma = 0, inbreeding at F = 0) x a fixed list of special-value '
+                'patterns + random draws vs the exact coalescent expectation of the documented history (exponential sizes: time-dependent death rates by refinement); an error '
+                'above 1.5 % counts only if it persists with every grid size x2 and x4; K: one_pop calls and final heterozygosity of the library models vs the generated '
+                'epoch programs. non-trivial = distinct (clause, regime) keys')
     chk.unproved = ['convergence of the scheme to the diffusion and of the diffusion to coalescent/equilibrium theory (clauses B, C, D, F) is NUMERICAL: thresholds are the '
                     "property's own 1.5% under the refinement it names, time-step ratio in [4,25], grid-refinement ratios calibrated on the unchanged tree",
                     'finiteness/non-negativity/continuity of phi_1D (clause E) involves exp and scipy.integrate.quad: evaluated, not proved',
                     'proved: heterozygosity/influx/mass laws per step for every grid and dt, closed form over any number of steps, fixed point, scaling of the equilibrium constructors']
     chk.assumptions.append('scipy.integrate.quad / scipy.linalg.expm in the theory oracles (harness/c01_oracle.py) are trusted to ~1e-9')
+    chk.assumptions.append('exponential-size models (growth, bottlegrowth): the 1.5 % clause is applied at the first tenth-power of the step at which no single step changes the size by more than e^0.5 (the property states it for piecewise-constant histories)')
     from . import c02
     # K on the 1-D kernel (shared model op)
     for rep in range(6 if q else 40):
         c = c02.gen_case(rng, 1, 0, tier)
         c02.check_kernel_case(chk, ctx, c)
+    library_correspondence(chk, ctx, common.Rng(ctx['seed'], 'C01/libK'), tier)
     moment_laws(chk, ctx, rng, 40 if q else 400)
     density_regularity(chk, ctx, rng, tier)
     coalescent_convergence(chk, ctx, rng, 10 if q else 80, tier)
+    special_histories(chk, ctx, common.Rng(ctx['seed'], 'C01/special'), tier)
+    library_models(chk, ctx, common.Rng(ctx['seed'], 'C01/library'), tier)
     dt_order(chk, ctx, rng, 3 if q else 20)
     selection_equilibrium(chk, ctx, rng, 6 if q else 40, tier)
     stationarity(chk, ctx, rng, 5 if q else 30)
 
 def replay(chk, ctx, data):
     inp = data.get('input') or {}
-    if str(data.get('key', '')).startswith('coalescent:') and 'epochs' in inp:
+    if str(data.get('key', '')).startswith(('coalescent:', 'library:')) and inp.get('model') in LIBRARY and inp['model'] != 'equil' and 'sizes' in inp:
+        coalescent_case(chk, ctx['dadi'], int(inp['n']), None, list(inp['pts']), bool(inp['log']), False,
+                        lib=dict(model=inp['model'], sizes=[float(v) for v in inp['sizes']], times=[float(v) for v in inp['times']]))
+    elif str(data.get('key', '')).startswith('coalescent:') and 'epochs' in inp:
         coalescent_case(chk, ctx['dadi'], int(inp['n']), [tuple(e) for e in inp['epochs']], list(inp['pts']), bool(inp['log']), bool(inp['as_func']))
     else:
         run(chk, ctx)
